@@ -143,3 +143,5 @@ PROP = Prop(
     ],
     assumptions=["'moderate magnitude' is taken as |score| <= 1e6"],
 )
+
+RULE_EXTRA = ('score containers as in C02; one target array object re-used across all calls of a case, expectations taken from the pristine target list.')
